@@ -28,6 +28,7 @@ def run(ctx, rep):
         rep.ob('R3.1', f'{k}:no-weather', not hw, 'no weather dependence' if not hw else f'{k} depends on weather')
         ok, detail = c05.orientation(c, k, sgn)
         rep.ob('R3.2', f'{k}:orientation', ok, detail)
+        c05.check_hour_per_degree(c, rep, 'R3.2', k)
         atom = ('mapget', ('field', ('param', 'params'), 'angles'), ctx.prayer_key(k))
         env = S.env_for(pay)
         m = D.mono(pay, atom, env)
